@@ -4,7 +4,9 @@ package kcp
 
 import (
 	"fmt"
+	"time"
 
+	"verif/vrt"
 	"verif/wire"
 )
 
@@ -26,6 +28,12 @@ type vfWireTrack struct {
 	data    int
 	rsOK    int
 	conv    uint32
+	// FEC protection: a group whose last two data packets were emitted well within the continuity limit must be
+	// followed by its parity (the encoder may omit parity only after an idle gap of more than 500 ms)
+	haveData   bool
+	lastDataAt int64  // virtual ns of the previous data packet
+	owedParity bool   // the group just completed was continuous: its parity has to come next
+	owedGroup  uint32 // that group
 }
 
 type vfWireGroup struct {
@@ -84,6 +92,20 @@ func (t *vfWireTrack) observe(dg []byte) string {
 			}
 		}
 		t.haveSeq, t.lastSeq = true, f.Seqid
+		if t.owedParity {
+			if f.Type == wire.TypeData || f.Seqid/size != t.owedGroup {
+				t.owedParity = false
+				return t.fail("fec-parity-omitted-for-a-continuous-group", "group %d was completed by data packets less than 400 ms apart, but no parity followed (next FEC packet: seqid %d type %#x): the stream lost its FEC protection for that group", t.owedGroup, f.Seqid, f.Type)
+			}
+			t.owedParity = false
+		}
+		if f.Type == wire.TypeData {
+			now := vrt.NowNS()
+			if pos == uint32(d)-1 && t.haveData && now-t.lastDataAt < int64(400*time.Millisecond) {
+				t.owedParity, t.owedGroup = true, f.Seqid/size
+			}
+			t.haveData, t.lastDataAt = true, now
+		}
 		g := t.groups[f.Seqid/size]
 		if g == nil {
 			g = &vfWireGroup{data: map[int][]byte{}, parity: map[int][]byte{}}
